@@ -116,10 +116,13 @@ def read_try_coerce(mod: ast.Module):
         fail(cond, "body of the coercion branch")
     look, a1, call, a2, ret = blk
     # f = ctx.globals.get_instance_func(<recv>, f"__{<who>.kind.name.lower()}__")
-    if not (isinstance(look, ast.Assign) and ast.unparse(look.targets[0]) == "f" and isinstance(look.value, ast.Call)
+    if not (isinstance(look, ast.Assign) and len(look.targets) == 1 and isinstance(look.targets[0], ast.Name) and isinstance(look.value, ast.Call)
             and ast.unparse(look.value.func) == "ctx.globals.get_instance_func" and len(look.value.args) == 2
             and not look.value.keywords):
         fail(look, "method lookup of try_coerce_to")
+    fvar = look.targets[0].id          # the local holding the coercion method (any name)
+    if fvar in ("act", "exp", "node", "ctx", "subst"):
+        fail(look, "coercion method stored in a variable that is used otherwise")
     recv, name = look.value.args
     if not (isinstance(recv, ast.Name) and recv.id in WHO):
         fail(recv, "receiver of the coercion method")
@@ -136,11 +139,11 @@ def read_try_coerce(mod: ast.Module):
             and isinstance(inner.func.value, ast.Attribute) and inner.func.value.attr == "name"):
         fail(inner, "coercion method name is not <type>.kind.name.lower()")
     name_of = _kind_of(inner.func.value.value)
-    if ast.unparse(a1) != "assert f is not None":
-        fail(a1, "expected `assert f is not None`")
+    if not (isinstance(a1, ast.Assert) and ast.unparse(a1.test) == f"{fvar} is not None"):
+        fail(a1, "expected `assert <method> is not None`")
     # node, subst = f.check_call([node], <target>, node, ctx)
     if not (isinstance(call, ast.Assign) and ast.unparse(call.targets[0]) == "(node, subst)"
-            and isinstance(call.value, ast.Call) and ast.unparse(call.value.func) == "f.check_call"
+            and isinstance(call.value, ast.Call) and ast.unparse(call.value.func) == f"{fvar}.check_call"
             and len(call.value.args) == 4 and not call.value.keywords
             and ast.unparse(call.value.args[0]) == "[node]" and ast.unparse(call.value.args[2]) == "node"
             and ast.unparse(call.value.args[3]) == "ctx"):
